@@ -8,7 +8,7 @@ from fractions import Fraction as Fr
 from .. import common
 from ..runner import Corr, Failure
 
-LEAN_MODULES = ['SvgVerif.Props.C02']
+LEAN_MODULES = ['SvgVerif.Props.C02', 'SvgVerif.Props.C02Lexer']
 ASSUMPTIONS = [
     'float(token) and the regex engine are CPython; the tokenizer model is tied by exhaustive correspondence on short strings, not by a theorem',
     'the refinement theorem is law-free except for commutativity of + (IEEE addition is commutative); the reflection 2*cur - c is (cur + cur) - c on both sides',
